@@ -39,7 +39,9 @@ COMPONENTS = {
 # shared: update ranges
 # --------------------------------------------------------------------------- #
 
-PERIOD_TEXTS = ["2012", "2015-03", "month:2014-11:4", "year:2013:2", "2016-02-29", "day:2015-03-17:10", "2010", "month:2018-01:12", "year:2011-06"]
+PERIOD_TEXTS = ["2012", "2015-03", "month:2014-11:4", "year:2013:2", "2016-02-29", "day:2015-03-17:10", "2010", "month:2018-01:12", "year:2011-06",
+                # several months ending in a February, across a year boundary, one of the two years a leap year
+                "month:2015-12:3", "month:2019-11:4", "month:2011-03:12", "month:2016-12:3", "month:2012-09:6", "year:2015-03", "year:2016-03"]
 
 
 def gen_range(rng: random.Random, entry_dates, era=None) -> dict:
@@ -791,8 +793,12 @@ def run_c07(scn) -> Result:
 
                 from .. import seams
 
-                PW._UNIQ += 1
-                directory = os.path.join(SCRATCH, f"t{PW._UNIQ}", "root")
+                # the legislation directory of the run: edited in place (same paths, other
+                # contents) and loaded again
+                directory = os.path.join(SCRATCH, "legislation", "root")
+                if os.path.isdir(directory):
+                    res.count("probe:directory_rewritten_in_place_and_reloaded")
+                shutil.rmtree(os.path.dirname(directory), ignore_errors=True)
                 PW.write_dir(trees[tid], directory, style())
                 real = m_pnode.os
                 m_pnode.os = seams.listdir_permuter(lseed)
@@ -800,10 +806,26 @@ def run_c07(scn) -> Result:
                     systems[sid].load_parameters(directory)
                 finally:
                     m_pnode.os = real
-                    shutil.rmtree(os.path.dirname(directory), ignore_errors=True)
                 writes += 1
                 res.count("fault:listdir_permuted")
                 H.add("W", "load_parameters", [sid, tid])
+                # what was loaded is what the directory holds (an independent reading of the
+                # specification that was written: the dated-list model)
+                res.count("clause:C07.agree")
+                for lpath in PW.leaf_paths(trees[tid])[:12]:
+                    values = PW.spec_at(trees[tid], lpath)["values"]
+                    model = PW.LeafModel(values)
+                    for d in sorted({*(scn.get("pool") or ()), *(PW.shift(e, k) for e, v in values if v != "expected" for k in (0, -1))})[:10]:
+                        try:
+                            got = PW.read_direct(systems[sid].parameters, lpath, d)
+                        except Exception as e:  # noqa: BLE001
+                            got = type(e).__name__
+                        if got != model.at(d) and not (got != got and model.at(d) != model.at(d)):
+                            res.violate("C07.agree", step, op=do[:3], what="after reloading, the tree does not hold what the directory holds",
+                                        path=list(lpath), date=d, expected=model.at(d), got=got)
+                            break
+                    if res.violations:
+                        break
             elif kind == "read":
                 _, sid, route, path, date = do
                 if sid not in systems:
